@@ -105,6 +105,11 @@ def ba_plan(c):
     p.case(['ba.new obj=1 how=sized n=8 value=170', 'ba.resize obj=1 n=3', 'ba.resize obj=1 n=8', 'ba.new obj=2 how=sized n=16 value=1', 'ba.resize obj=2 n=0', 'ba.resize obj=2 n=16',
             'ba.pop obj=2', 'ba.push obj=2 value=4', 'ba.resize obj=2 n=17'], cost=0.5)
     p.case(['util.from_hex str=%s form=%s' % (hx(s), f) for s in (b'01 02 03', b'0a0b', b'', b'zz', b' 1 2 ') for f in ('cstr', 'len')], cost=0.5)
+    # many aliases of one buffer (a reference count is wider than a byte): 300 copies, then each kind of mutation on one of them
+    for mut in ('push obj=1 value=9', 'resize obj=1 n=3', 'index_set obj=1 pos=0 value=9', 'data_set obj=300 pos=1 value=8'):
+        p.case(['ba.new obj=1 how=sized n=2 value=170'] + ['ba.new obj=%d how=copy src=%d' % (k, rng.choice([1, k - 1])) for k in range(2, 301)] + ['ba.' + mut, 'ba.cmp obj=1 other=2', 'ba.cmp obj=299 other=300'] +
+               ['ba.del obj=%d' % k for k in range(300, 250, -1)] + ['ba.push obj=2 value=5', 'ba.cmp obj=1 other=2'], cost=12.0)
+        c.distinct([('aliases300', mut.split()[0])])
     return p
 
 def run(c):
@@ -132,6 +137,9 @@ def run(c):
             s = ''.join((chr(rng.choice(WS)) if rng.random() < 0.3 else '') + ch for ch in h)
             if rng.random() < 0.2: s += rng.choice(['g', '0', ' 1', '\x00'])
             lines += ['util.from_hex str=%s form=%s' % (hx(s.encode('latin1')), f) for f in ('len', 'string')]
+        # a std::string carries its length: an embedded NUL is a character like any other (an invalid one)
+        for raw in (b'4142\x00zz', b'4142\x00', b'41\x0042', b'\x00', b'\x004142', b'41 42\x00 43', b'4\x001'):
+            lines += ['util.from_hex str=%s form=%s' % (hx(raw), f) for f in ('len', 'string')]
         p.case(lines, cost=3.0)
         c.tv(p, 'rel', 'cxxhex', drv=drvx, max_cost=12.0)
     c.cov['exhaustive'] = True
